@@ -88,6 +88,21 @@ def extract(repo):
     obs = ast.parse(open(os.path.join(repo, "EasyFEA", "Utilities", "_observers.py"), encoding="utf-8").read())
     ocls = next((n for n in obs.body if isinstance(n, ast.ClassDef) and n.name == "Observable"), None)
     chain["Observable._Notify"] = _need(_method(ocls, "_Notify"), ["[observer._Update(self, event) for observer in self.observers]"], "Observable._Notify")
+    # the registrations travel with the object: a copy (copy.copy / deepcopy / pickle: Save + Load_Simu) keeps them unless the class
+    # customises its state; the model `Sources` assumes the observer list is part of the state of the observable
+    omethods = sorted(f.name for f in ocls.body if isinstance(f, ast.FunctionDef))
+    if omethods != ["_Add_observer", "_Notify", "_Remove_observer", "observers"]:
+        raise Refuse(f"Observable defines {omethods}: the model knows observers / _Add_observer / _Remove_observer / _Notify only (a __getstate__ / __reduce__ / __deepcopy__ could drop the registrations of a copy)")
+    chain["Observable.methods"] = omethods
+    # a read of a parameter hands out a copy: what a caller does with it cannot change the stored value behind the notification
+    getter = _method(pcls, "__get__")
+    gbody = [ast.unparse(st) for st in getter.body if not (isinstance(st, ast.Expr) and isinstance(st.value, ast.Constant) and isinstance(st.value.value, str))]
+    if gbody != ["return copy.copy(instance.__dict__[self.__name])"]:
+        raise Refuse(f"_Parameter.__get__ is no longer [return a copy of the stored value]: {gbody}")
+    chain["_Parameter.__get__"] = gbody
+    pmethods = sorted(f.name for f in pcls.body if isinstance(f, ast.FunctionDef))
+    if pmethods != ["__get__", "__set__", "__set_name__", "_checker"] and pmethods != ["__get__", "__set__", "__set_name__"]:
+        raise Refuse(f"_Parameter defines {pmethods}: a flag or helper that lets an assignment skip the notification is outside the model")
     chain["_Simu._Update"] = _need(_method(base, "_Update"), ["self.Need_Update()", "clear_cached_computed_values(self)"], "_Simu._Update")
     # every way a mesh object becomes the simulation's mesh subscribes the simulation to it
     installers = {}
